@@ -338,13 +338,13 @@ func checkC08(c *Ctx) {
 			wl = append(wl, f)
 		}
 		sort.Strings(wl)
-		tn := pd.elem.Obj().Pkg().Path() + "." + pd.elem.Obj().Name()
+		tn := pd.elem.Obj().Pkg().Path() + "." + TNm(pd.elem.Obj())
 		for _, f := range wl {
 			if why, ok := exemptFields[tn+"."+f]; ok && (reset[f] || assigned[f] || f == "storage") {
 				c.Triv("R8.1", pd.name, "field/"+f, pd.elem.Obj().Pos(), "exempt: %s", why)
 				continue
 			}
-			c.Check(reset[f] || assigned[f], "R8.1", pd.name, "field/"+f, pd.elem.Obj().Pos(), "%s.%s is written during use; it is neutralised before Put=%v / reassigned after Get=%v on every path (otherwise a recycled object carries it into a later call)", pd.elem.Obj().Name(), f, reset[f], assigned[f])
+			c.Check(reset[f] || assigned[f], "R8.1", pd.name, "field/"+f, pd.elem.Obj().Pos(), "%s.%s is written during use; it is neutralised before Put=%v / reassigned after Get=%v on every path (otherwise a recycled object carries it into a later call)", TNm(pd.elem.Obj()), f, reset[f], assigned[f])
 		}
 		if len(wl) == 0 {
 			c.OK("R8.1", pd.name, "no-mutable-fields", pd.elem.Obj().Pos(), "no field of %s is written outside the pool constructor", tn)
@@ -1024,7 +1024,7 @@ func c8NoRetainedFields(c *Ctx, rule string) {
 	n := 0
 	for _, t := range c.Implementers(iface) {
 		for _, m := range []string{"Write", "With"} {
-			fn := c.Method(t.Obj().Pkg().Path(), t.Obj().Name(), m)
+			fn := c.Method(t.Obj().Pkg().Path(), TNm(t.Obj()), m)
 			if fn == nil || RecvNamed(fn) == nil || RecvNamed(fn).Obj() != t.Obj() || len(fn.Params) < 2 {
 				continue
 			}
